@@ -1073,7 +1073,8 @@ func (c *controller) getImageForMessageRef(
 		imageFromProtoOptions = append(imageFromProtoOptions, bufimage.WithNoReparse())
 	case buffetch.MessageEncodingYAML:
 		// No need to apply validation - Images do not use protovalidate.
-		resolver, err := bootstrapResolver(protoencoding.NewYAMLUnmarshaler(nil), data)
+		// The bootstrap pass has no resolver yet: custom options cannot be recognized and must be skipped.
+		resolver, err := bootstrapResolver(protoencoding.NewYAMLUnmarshaler(nil, protoencoding.YAMLUnmarshalerWithDiscardUnknown()), data)
 		if err != nil {
 			return nil, err
 		}
